@@ -376,96 +376,78 @@ fn c02_t_fold_l3_k222() {
     frame_fold::<3>([2, 2, 2]);
 }
 
-/// Contract of write_cel for a raw 1x1 RGBA cel at (0,0) on a 1x1 canvas, as decided by the fold harnesses with the real
-/// write_cel (c02_*_fold_l2_*): the pixel becomes blend(layer mode, before, cel pixel, round(layer opacity * cel opacity / 255)).
-pub(crate) fn contract_write_cel_raw_1x1(this: &AsepriteFile, image: &mut RgbaImage, cel: &RawCel<Pixels>) {
-    let layer = this.layer(cel.data.layer_index as u32);
-    let px = match &cel.content {
-        CelContent::Raw(ic) => match &ic.pixels {
-            Pixels::Rgba(v) => v[0],
-            _ => {
-                kani::assume(false);
-                unreachable!()
-            }
-        },
-        _ => {
-            kani::assume(false);
-            unreachable!()
-        }
-    };
-    let before = *image.get_pixel(0, 0);
-    let new = uf_blend(layer.blend_mode(), before, px, mul8_ref(layer.opacity(), cel.data.opacity));
-    image.put_pixel(0, 0, new);
+static mut GATE_REC: [u16; 8] = [0; 8];
+static mut GATE_N: usize = 0;
+/// Recording stand-in for write_cel in the gate harnesses: notes which layer's cel frame_image decided to draw, in
+/// order (what write_cel does with it is decided by the fold harnesses with the real write_cel).
+pub(crate) fn recording_write_cel(_this: &AsepriteFile, _image: &mut RgbaImage, cel: &RawCel<Pixels>) {
+    unsafe {
+        assert!(GATE_N < 8);
+        GATE_REC[GATE_N] = cel.data.layer_index;
+        GATE_N += 1;
+    }
 }
 
-/// U3b: the gate and order of frame_image alone, for deeper nesting: L layers (symbolic flags, forest levels, opacities,
-/// modes), each with a raw 1x1 cel or none (symbolic); write_cel replaced by its contract above. Frame pixel == fold over
-/// the layers that have a cel AND are visible through ALL their ancestors, in index order.
-fn frame_gate<const L: usize>(chain: bool) {
-    let mut levels: [u16; L] = kani::any();
+/// U3b: the gate and order of frame_image alone, for deeper nesting: L layers (symbolic flags, forest levels), each
+/// with a raw 1x1 cel or none (symbolic). Under Kani write_cel is the recorder above and the drawn sequence must be
+/// exactly the layers that have a cel AND are visible through ALL their ancestors, in index order; in a native replay
+/// (no stubs) the same is observed through the image: fold of the real Normal blend over those layers.
+fn frame_gate<const L: usize>() {
+    let levels: [u16; L] = kani::any();
     let flags: [u16; L] = kani::any();
-    if chain {
-        // quick variant: the nesting chain 0,1,2,... (every layer inside its predecessor), flags / cels symbolic
-        for i in 0..L {
-            levels[i] = i as u16;
-        }
-    }
     kani::assume(is_forest(&levels));
     let mut lv = Vec::with_capacity(L);
-    let mut lop = [0u8; L];
-    let mut modes = [BlendMode::Normal; L];
     let mut has = [false; L];
     let mut px = [Rgba([0u8; 4]); L];
-    let mut cop = [0u8; L];
     let mut f0: Vec<Option<RawCel<Pixels>>> = Vec::with_capacity(L);
     for i in 0..L {
-        lop[i] = kani::any();
-        modes[i] = any_blend_mode();
-        lv.push(mk_layer(flags[i] as u32, levels[i], modes[i], lop[i], LayerType::Image));
+        lv.push(mk_layer(flags[i] as u32, levels[i], BlendMode::Normal, 255, LayerType::Image));
         has[i] = kani::any();
         px[i] = any_px();
-        cop[i] = kani::any();
-        f0.push(if has[i] { Some(raw_cel_1px(i as u16, 0, 0, cop[i], px[i])) } else { None });
+        f0.push(if has[i] { Some(raw_cel_1px(i as u16, 0, 0, 255, px[i])) } else { None });
     }
     let ld = LayersData::from_vec(lv).unwrap();
     let file = mk_file(1, 1, 1, PixelFormat::Rgba, ld, mk_cels(vec![f0]), TilesetsById::new(), Vec::new());
     let img = file.frame(0).image();
-    let mut acc = Rgba([0u8, 0, 0, 0]);
-    for i in 0..L {
-        if has[i] && spec_visible(&levels, &flags, i) {
-            acc = uf_blend(modes[i], acc, px[i], mul8_ref(lop[i], cop[i]));
+    if stubs_probe() {
+        let mut k = 0;
+        for i in 0..L {
+            if has[i] && spec_visible(&levels, &flags, i) {
+                assert!(unsafe { k < GATE_N && GATE_REC[k] as usize == i }, "frame_image draws exactly the cels of layers visible through all ancestors, bottom to top");
+                k += 1;
+            }
         }
+        assert!(unsafe { GATE_N } == k, "and nothing else");
+    } else {
+        let mut acc = Rgba([0u8, 0, 0, 0]);
+        for i in 0..L {
+            if has[i] && spec_visible(&levels, &flags, i) {
+                acc = crate::blend::normal(acc, px[i], 255);
+            }
+        }
+        assert!(px_equiv(img.get_pixel(0, 0), &acc), "frame pixel == fold of the cels of layers visible through all ancestors");
     }
-    assert!(px_equiv(img.get_pixel(0, 0), &acc), "frame pixel == fold of the cels of layers visible through all ancestors, bottom to top");
     kani::cover!(has[L - 1] && levels[L - 1] == 2 && flags[L - 1] & 1 == 1 && flags[L - 2] & 1 == 1 && flags[L - 3] & 1 == 0,
         "hidden through a grandparent only");
     kani::cover!(has[0] && has[L - 1] && spec_visible(&levels, &flags, L - 1));
     core::mem::forget(file);
 }
-#[kani::proof]
-#[kani::unwind(6)]
-#[kani::stub(alloc::fmt::format, crate::vklib::empty_format)]
-#[kani::stub(std::hash::RandomState::new, crate::vklib::fixed_random_state)]
-#[kani::stub(crate::file::AsepriteFile::write_cel, crate::file::vk_c02::contract_write_cel_raw_1x1)]
-fn c02_q_frame_gate_chain3() {
-    frame_gate::<3>(true);
+macro_rules! gate_harness {
+    ($name:ident, $l:expr, $unw:expr) => {
+        #[kani::proof]
+        #[kani::unwind($unw)]
+        #[kani::stub(alloc::fmt::format, crate::vklib::empty_format)]
+        #[kani::stub(std::hash::RandomState::new, crate::vklib::fixed_random_state)]
+        #[kani::stub(crate::file::AsepriteFile::write_cel, crate::file::vk_c02::recording_write_cel)]
+        #[kani::stub(crate::vklib::stubs_probe, crate::vklib::stubs_probe_stubbed)]
+        fn $name() {
+            frame_gate::<$l>();
+        }
+    };
 }
-#[kani::proof]
-#[kani::unwind(6)]
-#[kani::stub(alloc::fmt::format, crate::vklib::empty_format)]
-#[kani::stub(std::hash::RandomState::new, crate::vklib::fixed_random_state)]
-#[kani::stub(crate::file::AsepriteFile::write_cel, crate::file::vk_c02::contract_write_cel_raw_1x1)]
-fn c02_t_frame_gate_l3() {
-    frame_gate::<3>(false);
-}
-#[kani::proof]
-#[kani::unwind(7)]
-#[kani::stub(alloc::fmt::format, crate::vklib::empty_format)]
-#[kani::stub(std::hash::RandomState::new, crate::vklib::fixed_random_state)]
-#[kani::stub(crate::file::AsepriteFile::write_cel, crate::file::vk_c02::contract_write_cel_raw_1x1)]
-fn c02_t_frame_gate_chain4() {
-    frame_gate::<4>(true);
-}
+gate_harness!(c02_q_frame_gate_l3, 3, 6);
+gate_harness!(c02_t_frame_gate_l4, 4, 7);
+gate_harness!(c02_t_frame_gate_l5, 5, 8);
 
 /// U4: the per-frame cel table makes the order of cel chunks irrelevant: three cels for layers {0,1,2} inserted in
 /// the given order (concrete per harness: a symbolic layer index would make the table resize symbolic-length),
